@@ -13,11 +13,13 @@ type c16Prog struct {
 	name string
 	src  string
 	libs bool
+	kind string // "" = Execute, "pg" = through the playground handler, "varinput" = ExecVarInputText only
+	varInput string
 }
 
 func c16Polluters() []c16Prog {
 	ps := []c16Prog{}
-	add := func(n, s string) { ps = append(ps, c16Prog{n, s, true}) }
+	add := func(n, s string) { ps = append(ps, c16Prog{name: n, src: s, libs: true}) }
 	add("数值-自增", "以数值（自增：5）\n输出数值\n")
 	add("数值-自减", "以数值（自减：3）\n输出数值\n")
 	add("数值-自增-huge", "以数值（自增：1*10^300）\n以数值（自增：1*10^300）\n")
@@ -51,12 +53,21 @@ func c16Polluters() []c16Prog {
 	add("string-atoi-literal", "输出以“12*10^3”（转换数值）\n")
 	add("deep-structures", "令甲 = 【1，【2，【3，【4】】】】\n令乙 = 甲\n以乙#2#2（后增：9）\n输出 甲\n")
 	add("input-missing", "输入缺失变量\n输出 1\n")
+	// the input-variable path (ExecVarInputText, as the playground handler uses it)
+	pg := func(n, vi, src string) { ps = append(ps, c16Prog{name: n, src: src, libs: true, kind: "pg", varInput: vi}) }
+	pg("pg-varinput-数值-自增", "乙 = 以数值（自增：5）", "输入乙\n输出乙\n")
+	pg("pg-varinput-alias-数值", "丙 = 数值", "输入丙\n以丙（自增：3）\n输出丙\n")
+	pg("pg-varinput-exception", "甲 =（新建异常：“x”）", "输入甲\n输出甲之内容\n")
+	pg("pg-varinput-error", "甲 = 未名 + 1", "输入甲\n输出甲\n")
+	pg("pg-varinput-list", "甲 = 【1，2】；乙 = 【“k” = 1】", "输入甲、乙\n以甲（后增：3）\n乙#“z” = 2\n输出甲\n")
+	ps = append(ps, c16Prog{name: "varinput-数值-自减", kind: "varinput", varInput: "甲 = 以数值（自减：2）"})
+	ps = append(ps, c16Prog{name: "varinput-数值-twice", kind: "varinput", varInput: "甲 = 以数值（自增：1）；乙 = 以数值（自增：1）"})
 	return ps
 }
 
 func c16Probes() []c16Prog {
 	qs := []c16Prog{}
-	add := func(n, s string) { qs = append(qs, c16Prog{n, s, true}) }
+	add := func(n, s string) { qs = append(qs, c16Prog{name: n, src: s, libs: true}) }
 	add("数值-value", "输出数值\n")
 	add("数值-add", "输出以数值（加：1）\n")
 	add("数值-new", "令甲 =（新建数值：5）\n输出 甲 + 1\n")
@@ -86,10 +97,21 @@ func c16Probes() []c16Prog {
 	add("arith", "输出 7 | 2 + 7 % 3 * 2.5 - 1 / 4\n")
 	add("error-position", "令甲 = 1\n令乙 = 甲 / 0\n")
 	add("syntax-error", "令甲 = \n")
+	qs = append(qs, c16Prog{name: "pg-varinput-数值", src: "输入甲\n输出甲\n", libs: true, kind: "pg", varInput: "甲 = 数值 + 1"})
+	qs = append(qs, c16Prog{name: "pg-varinput-plain", src: "输入甲、乙\n输出甲 * 乙\n", libs: true, kind: "pg", varInput: "甲 = 28；乙 = 300"})
+	qs = append(qs, c16Prog{name: "pg-no-varinput", src: "输出以数值（加：1）\n", libs: true, kind: "pg"})
+	qs = append(qs, c16Prog{name: "varinput-数值", kind: "varinput", varInput: "甲 = 数值 + 1；乙 = 数值之文本"})
+	qs = append(qs, c16Prog{name: "varinput-exception", kind: "varinput", varInput: "甲 =（新建异常：“m”）"})
 	return qs
 }
 
 func c16Req(p c16Prog, shared bool) Req {
+	switch p.kind {
+	case "pg":
+		return Req{Op: "pg", Src: Runes(p.src), Text: p.varInput, Shared: shared, EvalBudget: 100000}
+	case "varinput":
+		return Req{Op: "varinput", Text: p.varInput, EvalBudget: 100000, ParseBudget: 100000}
+	}
 	r := execReq(p.src)
 	r.Libs = p.libs
 	r.Shared = shared
@@ -98,7 +120,7 @@ func c16Req(p c16Prog, shared bool) Req {
 }
 
 func checkC16(c *Ctx) {
-	c.rule = "(a) sequential isolation: probe battery Q (programs touching every predefined value, the library functions and a synthetic library type) is run in a pristine worker process (one fresh process per probe) and then, in one process, after polluter sequences P1..Pn (every mutating operation applicable to predefined / library values: 自增/自减 on 数值, constructor redefinition of 异常 and of a library type, method/property writes on predefined values, redefinitions, abandoned call stacks, imports, declarations, mutation of library instances), with a shared Interpreter object and with fresh ones; every probe outcome (result, display, error text) must equal its pristine outcome. All single polluters x all probes exhaustively, random sequences of 2..8 polluters. (b) concurrent isolation: see the race harness part of the rule below. distinct_nontrivial = distinct (polluter sequence, probe, interpreter sharing mode)"
+	c.rule = "(a) sequential isolation: probe battery Q (programs touching every predefined value, the library functions and a synthetic library type) is run in a pristine worker process (one fresh process per probe) and then, in one process, after polluter sequences P1..Pn (every mutating operation applicable to predefined / library values: 自增/自减 on 数值, constructor redefinition of 异常 and of a library type, method/property writes on predefined values, redefinitions, abandoned call stacks, imports, declarations, mutation of library instances; the same through input-variable texts and through the playground HTTP handler, whose VarInput is evaluated by ExecVarInputText), with a shared Interpreter / handler object and with fresh ones; every probe outcome (result, display, error text) must equal its pristine outcome. All single polluters x all probes exhaustively, random sequences of 2..8 polluters. (b) concurrent isolation: see the race harness part of the rule below. distinct_nontrivial = distinct (polluter sequence, probe, interpreter sharing mode)"
 	c.assumptions = []string{"the worker registers a synthetic library (a type with collection defaults and a method) through the public SetExternalLibs API because the libraries that build on this platform export only functions", "probes never call 取随机数 for its value"}
 	rng := c.Rand("c16")
 	pol := c16Polluters()
